@@ -32,7 +32,7 @@ inline LMap gen_lmap(Tape& t, size_t maxTiles, unsigned minLg = 0) {
 	if (t.flag()) for (int i = 0; i < 4; ++i) m.clip[i] = int32_t(t.u32());
 	unsigned ns = unsigned(t.below(9));
 	for (unsigned i = 0; i < ns; ++i) { refmap::Source src; if (t.below(3) != 0) { src.name = gen_str(t, 8); } if (t.below(4) == 0) src.name = "well0001"; src.numTiles = src.name.empty() ? 0 : t.pick<uint32_t>({0, 1, 432, 0xFFFFFFFF, 7}); m.sources.push_back(src); }
-	unsigned nm = unsigned(t.below(41)); if (t.below(8) == 0) nm = 2048;
+	unsigned nm = unsigned(t.below(41)); if (t.below(8) == 0) nm = t.pick<unsigned>({2048, 2048, 4097, 5000});   // 2048 = every mapping index; beyond 4096 = past any chunked-read threshold
 	{ uint64_t q = t.u64() | 1; bool wide = t.flag();   // all four 16-bit fields take arbitrary values in half the maps
 	  for (unsigned i = 0; i < nm; ++i) { q ^= q << 13; q ^= q >> 7; q ^= q << 17; if (wide) m.mappings.push_back({uint16_t(q), uint16_t(q >> 16), uint16_t(q >> 32), uint16_t(q >> 48)}); else m.mappings.push_back({uint16_t(i * 7 + (q & 255)), uint16_t(i * 13 + 1), uint16_t(i % 5), uint16_t(i % 3)}); } }
 	unsigned nt = unsigned(t.below(5));
